@@ -6,7 +6,7 @@ from fractions import Fraction
 
 import numpy as np
 
-HBARS = [2.0, 1.0, 0.5, 0.7, 3.0, 4.5, 0.98]
+HBARS = [2.0, 1.0, 0.5, 0.7, 3.0, 4.5, 0.98, 0.1, 10.0]
 
 
 def fr(x):
@@ -358,9 +358,9 @@ def result_cases(ctx, sf, count):
 
 # ---------------------------------------------------------------- state objects
 
-def rat_symplectic_cov(rng, n):
+def rat_symplectic_cov(rng, n, nbars=(Fraction(0), Fraction(0), Fraction(1, 4), Fraction(1, 2))):
     """rational physical covariance (hbar = 2, xxpp): S D S^T with rational symplectic S"""
-    D = [Fraction(1) + 2 * rng.choice([Fraction(0), Fraction(0), Fraction(1, 4), Fraction(1, 2)]) for _ in range(n)]
+    D = [Fraction(1) + 2 * rng.choice(list(nbars)) for _ in range(n)]
     V = [[Fraction(0)] * (2 * n) for _ in range(2 * n)]
     for i in range(n):
         V[i][i] = V[i + n][i + n] = D[i]
@@ -483,3 +483,38 @@ def answers_equal(model, real, tol=1e-9):
             if abs(a - b) > tol * max(1.0, abs(a)):
                 return f"call {i}: model {a} real {b}"
     return None
+
+
+def pure_cases(ctx, sf, count):
+    """the two purity decisions of the code (`Gaussian(V).pure`, tol 1e-6; `BaseGaussianState.is_pure`, tol 1e-10) on states a
+    factor >= 10 away from the tolerance in hbar = 2 units, at small and large hbar, vs `hbar.pure`"""
+    from strawberryfields import ops
+    from strawberryfields.backends.states import BaseGaussianState
+    rng = ctx.rng
+    out = []
+    hbars = [2.0, 0.05, 0.1, 0.25, 0.5, 4.0, 10.0]
+    for it in range(count):
+        h = hbars[it % len(hbars)]
+        s = math.sqrt(h / 2)
+        n = rng.choice([1, 1, 2, 2, 3])
+        site = "gaussian-op" if it % 2 else "state"
+        tiny = Fraction(1, 400000) if site == "gaussian-op" else Fraction(1, 4 * 10 ** 8)    # det - 1 ~ 1e-5 resp. 1e-8
+        nb = rng.choice([(Fraction(0),), (Fraction(0), tiny, 10 * tiny), (tiny,), (Fraction(1, 4), Fraction(0))])
+        V0 = rat_symplectic_cov(rng, n, nb)
+        V0f = np.array([[float(x) for x in row] for row in V0])
+        sf.hbar = h
+        try:
+            if site == "gaussian-op":
+                Vh = V0f * (h / 2)
+                real = bool(ops.Gaussian(Vh.copy()).pure)
+                seen, tol = Vh, 1e-6
+            else:
+                st = BaseGaussianState((np.zeros(2 * n), V0f.copy()), n)
+                real = bool(st.is_pure)
+                seen, tol = np.asarray(st.cov()), float(st.EQ_TOLERANCE)
+        finally:
+            sf.hbar = 2
+        req = dict(op="hbar.pure", s=fr(s), tol=fr(tol), V=[[fr(float(x)) for x in row] for row in seen])
+        case = dict(hbar=h, n=n, site=site, nbars=[float(x) for x in nb], V0=V0f.tolist())
+        out.append((req, real, case))
+    return out
